@@ -129,6 +129,9 @@ static void* arena_realloc(void* mem, size_t size)
     return p;
 }
 
+// every scenario is a short-lived process image: a small quarantine keeps the image (and the cost of fork) small
+extern "C" const char* __asan_default_options() { return "quarantine_size_mb=8"; }
+
 static jmp_buf opJmp;
 static bool jumpMode, armed;
 static int lockDepth;                     // the detector's mutex: a counter (one thread)
@@ -396,15 +399,19 @@ int main()
     // and the first scenario whose process dies takes the harness down with it after everything before it has been printed (the
     // runner records the crash for that scenario and starts a new harness on the next one)
     const int WORKERS = 4;
-    std::vector<Toks> batch;
+    // the parent allocates nothing per scenario (its image is what every scenario process starts from, and what fork has to copy):
+    // one getline buffer per worker, one growing buffer for the text read back
+    char* lineBuf[WORKERS]; size_t lineCap[WORKERS];
+    for (int b = 0; b < WORKERS; b++) { lineBuf[b] = nullptr; lineCap[b] = 0; }
+    size_t textCap = 1 << 16; char* text = (char*)malloc(textCap);
     bool more = true;
     while (more) {
-        batch.clear();
-        while ((int)batch.size() < WORKERS) { Toks t; if (!readline(t)) { more = false; break; } batch.push_back(t); }
-        if (batch.empty()) break;
+        int nb = 0;
+        while (nb < WORKERS) { if (getline(&lineBuf[nb], &lineCap[nb], stdin) < 0) { more = false; break; } nb++; }
+        if (nb == 0) break;
         fflush(stdout); fflush(stderr);
-        std::vector<pid_t> pids; std::vector<int> fds;
-        for (size_t b = 0; b < batch.size(); b++) {
+        pid_t pids[WORKERS]; int fds[WORKERS];
+        for (int b = 0; b < nb; b++) {
             int pfd[2];
             if (pipe(pfd) != 0) { perror("harness: pipe"); exit(3); }
             pid_t pid = fork();
@@ -412,28 +419,34 @@ int main()
             if (pid == 0) {
                 prctl(PR_SET_PDEATHSIG, SIGKILL);
                 close(pfd[0]);
-                for (int fd : fds) close(fd);
+                for (int c = 0; c < b; c++) close(fds[c]);
                 if (dup2(pfd[1], 1) < 0) _exit(3);
                 close(pfd[1]);
                 char frame[64]; stackObject = frame + 8;
-                runScenario(batch[b]);
+                Toks t; { std::istringstream is(lineBuf[b]); std::string w; while (is >> w) t.t.push_back(w); }
+                runScenario(t);
                 _exit(0);
             }
             close(pfd[1]);
-            pids.push_back(pid); fds.push_back(pfd[0]);
+            pids[b] = pid; fds[b] = pfd[0];
         }
         int failed = -1, failStatus = 0;
-        for (size_t b = 0; b < batch.size(); b++) {
-            std::string text; char buf[65536]; ssize_t r;
-            while ((r = read(fds[b], buf, sizeof buf)) > 0 || (r < 0 && errno == EINTR)) if (r > 0) text.append(buf, (size_t)r);
+        for (int b = 0; b < nb; b++) {
+            size_t len = 0; ssize_t r;
+            for (;;) {
+                if (len + 65536 + 1 > textCap) { textCap *= 2; text = (char*)realloc(text, textCap); if (!text) { fprintf(stderr, "harness: out of memory\n"); exit(3); } }
+                r = read(fds[b], text + len, 65536);
+                if (r > 0) len += (size_t)r; else if (r == 0 || errno != EINTR) break;
+            }
+            text[len] = 0;
             close(fds[b]);
             int status = 0;
             while (waitpid(pids[b], &status, 0) < 0) { if (errno != EINTR) { perror("harness: waitpid"); exit(3); } }
             if (failed >= 0) continue;                          // a scenario before this one died: this one is run again by the next harness
-            if (WIFEXITED(status) && WEXITSTATUS(status) == 0 && !text.empty() && text.back() == '\n') { fputs(text.c_str(), stdout); fflush(stdout); }
+            if (WIFEXITED(status) && WEXITSTATUS(status) == 0 && len > 0 && text[len - 1] == '\n') { fputs(text, stdout); fflush(stdout); }
             else {
-                failed = (int)b; failStatus = status;
-                for (size_t c = b + 1; c < batch.size(); c++) kill(pids[c], SIGKILL);
+                failed = b; failStatus = status;
+                for (int c = b + 1; c < nb; c++) kill(pids[c], SIGKILL);
             }
         }
         if (failed >= 0) {
